@@ -62,6 +62,7 @@ slice_('Slice2', replace=['SliceReader_ctor']); slice_('Slice1', replace=['Slice
 
 # ---- U-BIDI
 RD = ['Rd_Read', 'Rd_ReadU32', 'Rd_ReadRec8', 'Rd_ReadRec16', 'Rd_ReadRec24', 'Rd_ReadPartial', 'Rd_Length', 'Rd_Position', 'Rd_Seek', 'Rd_SeekForward', 'Rd_SeekBackward']
+WR_TRUST = 'Writer contract (contracts/wr.h): Write appends exactly the bytes handed over or throws appending nothing; proved for MemoryWriter, assumed for FileWriter/std::ofstream and DynamicMemoryWriter/std::vector'
 KR_TRUST = 'K_R (contracts/kr.h) as the contract of the abstract Stream::Reader interface: proved for MemoryReader and SliceReader<W>; virtual dispatch bound statically to the contract'
 G('bidi.Read', ['C12'], 'bidi', 'Reader_Read', replace=RD, trusted=[KR_TRUST])
 G('bidi.Peek', ['C12', 'C09'], 'bidi', 'BidirectionalReader_Peek', replace=RD, trusted=[KR_TRUST])
@@ -201,6 +202,13 @@ sprh('PpalHeader_Create', ['C09', 'C18'], replace=['SectionHeader_ctor2']); sprh
 sprh('Tileset_ValidateFileSignatureHeader', ['C09', 'C11'], reach=EXC2); sprh('Tileset_ValidatePaletteHeader', ['C09', 'C11'], reach=EXC2)
 sprh('Tileset_CalculatePixelHeaderLength', ['C09']); sprh('Tileset_ValidatePixelHeader', ['C09', 'C11'], reach=EXC2, replace=['Tileset_CalculatePixelHeaderLength'])
 sprh('Tileset_CalculatePbmpSectionSize', ['C09'], replace=['Tileset_CalculatePixelHeaderLength']); sprh('Tileset_ValidateTileset', ['C09', 'C11'], reach=EXC2)
+sprh('Tileset_PeekIsCustomTileset', ['C09', 'C11'], reach=EXC2, replace=['Rd_PeekTag', 'Rd_Read', 'Rd_SeekBeginning'], trusted=[KR_TRUST, 'BidirectionalReader::Peek by the contract proved in group bidi.Peek'],
+     what='detector leaves the stream where it stands (any position) and answers exactly "next four bytes are PBMP"')
+sprh('Tileset_SwapPaletteRedAndBlue', ['C09'], replace=['Color_SwapRedAndBlue'], what='every entry (arbitrary index) of a palette of any length has red and blue exchanged, green and alpha kept')
+sprh('Tileset_WriteCustomTileset', ['C09', 'C18'], reach=EXC2, replace=['Wr_Write', 'Tileset_ValidateTileset', 'BitmapFile_GetScanLineOrientation', 'BitmapFile_InvertScanLines', 'BitmapFile_AbsoluteHeight', 'Tileset_CalculatePbmpSectionSize',
+     'Tileset_CalculatePixelHeaderLength', 'TilesetHeader_Create', 'PpalHeader_Create', 'Tileset_SwapPaletteRedAndBlue', 'SectionHeader_ctor2'], flags=['--object-bits', '12'], timeout=900,
+     trusted=[WR_TRUST, 'BitmapFile::InvertScanLines as an assumed abstract contract (negates the height, same pixel count)', 'SwapPaletteRedAndBlue by its contract (group sprh.Tileset_SwapPaletteRedAndBlue)'],
+     what='custom tileset writer vs the format description: total length, PBMP length, pixel height, pixel section length, palette entry gi with red/blue exchanged; non-tilesets refused with nothing written')
 sprh('PaletteHeader_ctor', ['C10', 'C18'], replace=['SectionHeader_ctor0'])
 sprh('PaletteHeader_CreatePaletteHeader', ['C10', 'C18'], replace=['SectionHeader_ctor2', 'PaletteHeader_ctor'])
 sprh('PaletteHeader_Validate', ['C10', 'C11'], reach=EXC2, replace=['SectionHeader_Validate', 'SectionHeader_TotalLength'])
@@ -244,7 +252,6 @@ NOT_DECIDED.update({
 })
 
 # ---- U-WRT (C14, C20, C01, C03: writer helpers over the abstract stream contracts)
-WR_TRUST = 'Writer contract (contracts/wr.h): Write appends exactly the bytes handed over or throws appending nothing; proved for MemoryWriter, assumed for FileWriter/std::ofstream and DynamicMemoryWriter/std::vector'
 G('wrt.Write', ['C14'], 'wrt', 'Writer_Write', replace=['Wr_WriteImplementation'], trusted=[WR_TRUST])
 G('wrt.WriteReader', ['C14', 'C01', 'C03'], 'wrt', 'Writer_WriteReader', replace=['Writer_Write', 'Rd_ReadPartial'], trusted=[WR_TRUST, KR_TRUST], timeout=900,
   what='copy loop: exactly the remaining bytes, in order, any source length, ANY chunk size 1..2^20 (symbolic)')
